@@ -82,11 +82,11 @@ V("C02-a-slice2", "C02", ["C02.1", "C02.2"], (RKM, "stage_coeffs = rk_tableau[st
 V("C02-b-drop-h", "C02", "C02.2", (RKM, "intermediate_dstate = timestep * D.ar_numpy.sum(", "intermediate_dstate = D.ar_numpy.sum("))
 V("C02-c-store0", "C02", "C02.2", (RKM, "intermediate_stages_out[...,stage] = intermediate_rhs", "intermediate_stages_out[...,0] = intermediate_rhs"))
 V("C02-d-no-newton-redo", "C02", "C02.4", (ITY,
-  "                    timestep, redo_step = self.update_timestep()\n                    if self.is_implicit and not self.solver_dict.get(\"newton_iteration_success\"):\n                        redo_step = True\n                        timestep = timestep * 0.8\n",
-  "                    timestep, redo_step = self.update_timestep()\n"))
+  "                    if self.is_implicit and not self.solver_dict.get(\"newton_iteration_success\"):\n                        redo_step = True\n                        timestep = timestep * 0.8\n                    if not redo_step:",
+  "                    if not redo_step:"))
 V("C02-d2-no-newton-first", "C02", "C02.4", (ITY,
-  "            timestep, redo_step = self.update_timestep()\n            if self.is_implicit and not self.solver_dict.get(\"newton_iteration_success\"):\n                redo_step = True\n                timestep = timestep * 0.8\n",
-  "            timestep, redo_step = self.update_timestep()\n"))
+  "            if self.is_implicit and not self.solver_dict.get(\"newton_iteration_success\"):\n                redo_step = True\n                timestep = timestep * 0.8\n            if redo_step:",
+  "            if redo_step:"))
 V("C02-e-or", "C02", "C02.4", (ITY, 'self.solver_dict["newton_iteration_success"] and prec < desired_tol', 'self.solver_dict["newton_iteration_success"] or prec < desired_tol'))
 V("C02-e2-noprec", "C02", "C02.4", (ITY, 'self.solver_dict["newton_iteration_success"] = self.solver_dict["newton_iteration_success"] and prec < desired_tol', 'self.solver_dict["newton_iteration_success"] = bool(self.solver_dict["newton_iteration_success"])'))
 V("C02-f-lastrow", "C02", ["C02.1", "C02.3"], (ITY, "self.dState = timestep * D.ar_numpy.sum(self.stage_values * self.tableau_final[0, 1:], axis=-1)",
@@ -332,3 +332,17 @@ V("C04-j-controller-back", "C04", "C04.2", (ITY, "            if not self.is_ada
 V("C06-k-fsal-implicit", "C06", "C06.6", (ITY, "        if self.is_fsal and self.is_explicit:\n            self.dState = intermediate_dstate\n            self.final_rhs = intermediate_rhs\n        else:\n            self.dState = timestep * D.ar_numpy.sum(self.stage_values * self.tableau_final[0, 1:], axis=-1)\n            self.final_rhs = rhs(",
    "        if self.is_fsal and self.is_explicit:\n            self.dState = intermediate_dstate\n        else:\n            self.dState = timestep * D.ar_numpy.sum(self.stage_values * self.tableau_final[0, 1:], axis=-1)\n        if self.is_fsal:\n            self.final_rhs = intermediate_rhs\n        else:\n            self.final_rhs = rhs("))
 V("C09-l-sort-elapsed", "C09", "C09.1", (DS, "order = D.ar_numpy.argsort(D.ar_numpy.sign(t_next - t_prev) * roots)", "order = D.ar_numpy.argsort(roots - t_prev)"))
+V("C14-g-endpoint-reject", "C14", "C14.5", (OPT, "    if fa * fb > 0:\n        return D.ar_numpy.asarray(numpy.inf, like=lower_bound), False", "    if fa * fb >= 0:\n        return D.ar_numpy.asarray(numpy.inf, like=lower_bound), False"))
+V("C14-h-vec-no-zero", "C14", "C14.5", (OPT, "        true_conv = D.ar_numpy.logical_or(bracketed, fb == 0)\n\n    if verbose:", "        true_conv = bracketed\n\n    if verbose:"))
+V("C14-s-reject-flipped", "C14", "silent", (OPT, "    if fa * fb > 0:\n        return D.ar_numpy.asarray(numpy.inf, like=lower_bound), False", "    if 0 < fa * fb:\n        return D.ar_numpy.asarray(numpy.inf, like=lower_bound), False"))
+V("C15-i-nan-accept", "C15", "C15.4", (OPT, "        no_progress = not (D.ar_numpy.max(gain) > 0)", "        no_progress = D.ar_numpy.max(gain) <= 0"))
+V("C15-s-accept-positive", "C15", "silent", (OPT, "        no_progress = not (D.ar_numpy.max(gain) > 0)\n        if not no_progress:", "        progress = D.ar_numpy.max(gain) > 0\n        no_progress = not progress\n        if progress:"))
+V("C20-l-alias-rhs", "C20", "C20.5", (DS, "            import copy\n            self.equ_rhs = copy.copy(equ_rhs)", "            self.equ_rhs = equ_rhs"))
+V("C13-m-alias-rhs", "C13", "C13.3", (DS, "            import copy\n            self.equ_rhs = copy.copy(equ_rhs)", "            self.equ_rhs = equ_rhs"))
+V("C19-j-signed-nearest", "C19", "C19.2", (DS, "                nearest_idx = int(D.ar_numpy.argmin(D.ar_numpy.abs(self.t - index)))", "                nearest_idx = int(D.ar_numpy.argmin(self.t - index))"))
+V("C04-k-overshoot-t0", "C04", "C04.5", (DS, "D.ar_numpy.abs(self.dt) > D.ar_numpy.abs(tf - self.__t[self.counter]):\n                    is_final_step = True", "D.ar_numpy.abs(self.__t[self.counter] + self.dt - self.t0) > D.ar_numpy.abs(tf - self.t0):\n                    is_final_step = True"))
+V("C08-h-sort-abs", "C08", "C08.4", (DS, "order = D.ar_numpy.argsort(D.ar_numpy.sign(t_next - t_prev) * roots)", "order = D.ar_numpy.argsort((roots - t_prev) / D.ar_numpy.abs(t_next - t_prev))"))
+V("C08-s-sort-equiv", "C08", "silent", (DS, "order = D.ar_numpy.argsort(D.ar_numpy.sign(t_next - t_prev) * roots)", "order = D.ar_numpy.argsort(roots * D.ar_numpy.sign(t_next - t_prev))"))
+V("C11-e-signed-residual", "C11", "C11.3", (ITY, 'self.solver_dict["newton_iteration_success"] and prec < desired_tol', 'self.solver_dict["newton_iteration_success"] and timestep * prec < desired_tol'))
+V("C17-k-vec-cast", "C17", "C17.5", (UTL, "    val = D.ar_numpy.asarray(val)\n    array = D.ar_numpy.asarray(array)\n    i64_type", "    array = D.ar_numpy.asarray(array)\n    val = D.ar_numpy.asarray(val, dtype=array.dtype)\n    i64_type"))
+V("C10-h-cached-slope", "C10", "C10.4", (ITY, "                self.initial_rhs = rhs(current_time, initial_state + self.dState, **constants)\n                aux = timestep * self.initial_rhs", "                if self.initial_rhs is None:\n                    self.initial_rhs = rhs(current_time, initial_state + self.dState, **constants)\n                aux = timestep * self.initial_rhs"))
